@@ -111,6 +111,10 @@ DtFields gen_dt(vf::Src& s) {
 	auto pick = [&](std::initializer_list<long> v) { auto it = v.begin(); std::advance(it, static_cast<long>(s.draw(v.size()))); return *it; };
 	f.mo = s.chance(1, 6) ? pick({ 0, 13, 99, 4294967297L }) : 1 + static_cast<long>(s.draw(12));
 	f.d = s.chance(1, 4) ? pick({ 0, 28, 29, 30, 31, 32, 99 }) : 1 + static_cast<long>(s.draw(28));
+	if (s.chance(1, 6)) {   // leap-year rule: every residue class of the year mod 400 that matters (century years 100 k, multiples of 4, others) with Feb 28 / 29 / 30
+		switch (s.draw(4)) { case 0: f.y = 100 * static_cast<i128>(s.draw(130)); break; case 1: f.y = 4 * static_cast<i128>(s.draw(2600)); break; case 2: f.y = static_cast<i128>(s.draw(10000)); break; default: f.y = 100 * static_cast<i128>(s.draw(1000000)); f.ysign = s.coin() ? "+" : "-"; if (f.y == 0) f.ysign = ""; }
+		f.mo = 2; f.d = pick({ 28, 29, 29, 29, 30 }); if (f.ysign.empty() || f.y <= 9999) f.ydigits = 4;
+	}
 	f.h = s.chance(1, 8) ? pick({ 23, 24, 25, 99 }) : static_cast<long>(s.draw(24));
 	f.mi = s.chance(1, 8) ? pick({ 59, 60, 99 }) : static_cast<long>(s.draw(60));
 	f.s = s.chance(1, 8) ? pick({ 59, 60, 61, 4294967296L }) : static_cast<long>(s.draw(60));
